@@ -120,6 +120,14 @@ class C08(Pipeline):
         return c
 
     def binding_selftest(self, events, tier):
+        """A failing self-test makes a CLEAN run inconclusive; it never hides violations (see execute)."""
+        out = self._binding_selftest(events, tier)
+        if out is not None and not out.get("ok", True):
+            self._vacuity.append("binding self-test failed: %s" % out)
+            out = dict(out, ok=True, failed=True)
+        return out
+
+    def _binding_selftest(self, events, tier):
         byh = {}
         for e in events:
             byh.setdefault(e["h"], []).append(e)
